@@ -76,7 +76,20 @@ class DftCase:
     def impl_text(self, kind):
         if kind == "wake":
             return "wake " + self._setup_text()
+        if kind == "csrmb":
+            pre = getattr(self, "pre", [])
+            t = "csrmb " + self._setup_text() + fhex(self.cutoff) + "\n%d\n" % len(pre)
+            for k, profs in pre:
+                t += "%s %s\n" % (k, " ".join(fhex(v) for pr in profs for v in pr))
+            return t
         return "csr " + self._setup_text() + fhex(self.cutoff) + "\n"
+
+    def bunch_case(self, b):
+        """the single-bunch case 'bunch b alone at padded offset 0' (what C07_multibunch_spectrum_row says row b is)"""
+        c = DftCase("%s_b%d" % (self.cid, b), self.N, self.n, self.n, [0], self.zre, self.zim, [self.prof[b]], self.axes, self.phys,
+                    note=self.note, cutoff=self.cutoff)
+        c.passive = getattr(self, "passive", False)
+        return c
 
     def model_cells(self):
         """cells of the padded wake the model prints: all for small N, else a spread of 24"""
@@ -111,6 +124,11 @@ class DftCase:
                     cutoff=self.cutoff, z0=[fhex(self.zre[0]), fhex(self.zim[0])])
 
     def replay(self, kind="wake"):
+        if kind == "csrmb":
+            d = self.replay("csr")
+            d["kind"] = "csrmb"
+            d["pre"] = [dict(op=k, prof=[[fhex(v) for v in pr] for pr in profs]) for k, profs in getattr(self, "pre", [])]
+            return d
         return dict(kind=kind, id=self.cid, N=self.N, n=self.n, spacing=self.s, buckets=self.buckets,
                     note=self.note, axes={k: fhex(v) for k, v in self.axes.items()},
                     phys={k: fhex(v) for k, v in self.phys.items()}, cutoff=fhex(self.cutoff),
@@ -332,6 +350,55 @@ def gen_csr_cases(ctx, count, sizes, prefix="c"):
     return cases
 
 
+def gen_csrmb_cases(ctx, count, sizes, prefix="m"):
+    """updateCSR on one object with nb = 1..3 bunches (mostly 2..3), spacing zero (the program's radiation field) and
+    non-zero, buckets in any order with empty buckets, after 0..3 earlier calls (wakePotential / padBunchProfiles /
+    updateCSR) with other profiles; pairs (cutoff off, cutoff on) share everything else"""
+    rng = ctx.rng
+    cases = []
+    for i in range(count):
+        N = sizes[i % len(sizes)] if i < len(sizes) else rng.choice(sizes)
+        nb = rng.choice([1, 2, 2, 3, 3])
+        for _ in range(100):
+            lo, hi = max(4, -(-N // 8)), min(32, N)
+            n = rng.randint(min(lo, hi), hi)
+            if rng.random() < 0.4:
+                s = 0
+            else:
+                s = rng.choice([n, n + 1, n + 3, max(1, n // 2), 1])
+            bks = rng.sample(range(0, nb + 2), nb)
+            o = rng.random()
+            if o < 0.4:
+                bks.sort(reverse=True)
+            elif o < 0.6:
+                bks.sort()
+            if max(bks) * s + n <= N:
+                break
+        else:
+            n, s, bks = min(8, N), 0, list(range(nb))
+        zk = rng.choice(["passive", "passive", "smooth", "random"])
+        zre, zim = _impedance(rng, N, zk)
+        pks = [rng.choice(["random", "gauss", "impulse", "signed", "int", "narrow"]) for _ in bks]
+        prof = [_profile(rng, n, pk) for pk in pks]
+        if nb > 1 and rng.random() < 0.2:
+            prof[rng.randrange(nb)] = [0.0] * n          # an empty bunch
+        axes, phys = _axes_phys(rng)
+        pre = []
+        for _ in range(rng.choice([0, 0, 1, 2, 3])):
+            pre.append((rng.choice("WPC"), [_profile(rng, n, rng.choice(["random", "signed", "int"])) for _ in bks]))
+        c0 = DftCase("%s%da" % (prefix, i), N, n, s, bks, zre, zim, prof, axes, phys, note="%s/%s" % (zk, "+".join(pks)))
+        c1 = DftCase("%s%db" % (prefix, i), N, n, s, bks, zre, zim, prof, axes, phys, note="%s/%s" % (zk, "+".join(pks)), cutoff=-1.0)
+        c1.cut_frac = rng.uniform(0.15, 1.2)
+        c0.pre = c1.pre = pre
+        c0.passive = c1.passive = zk in ("passive", "smooth")
+        cases.append((c0, c1))
+        ctx.count("csrmb:nb=%d" % nb)
+        ctx.count("csrmb:spacing=" + ("zero" if s == 0 else "nonzero"))
+        ctx.count("csrmb:history=%d" % len(pre))
+        ctx.count("csrmb:impedance=" + zk)
+    return cases
+
+
 # ---------------------------------------------------------------------------------- runners
 
 def _fl(tokens):
@@ -389,7 +456,7 @@ def compare_wake(c, ir, mr):
     N, n, s = c.N, c.n, c.s
     for tag in ("padded", "wakepad", "wake", "wake2", "scaling"):
         if nonfinite(ir[tag]):
-            return [("nonfinite", dict(what=tag))]
+            return [("nonfinite", dict(which=tag))]
     if ir["nmax"] != N:
         dis.append(("nmax", dict(impl=ir["nmax"], model=N)))
     # exact: the padded buffer
